@@ -188,9 +188,22 @@ func planRound(c *mon.Case, ng, perG int) (lists [][]call, kind string) {
 				vi = i
 			}
 		}
+		// ... and every second of these calls verifies a leaf of the technically constrained branch instead (name
+		// constraints, SANs of every kind, several VerifyOptions shapes)
+		var nc []int
+		for i := range ops {
+			for j := range pkiOps {
+				if ops[i].name == pkiOps[j].name {
+					nc = append(nc, i)
+				}
+			}
+		}
 		for g := range lists {
 			for _, k := range []int{0, len(lists[g]) - 1} {
 				lists[g][k] = call{op: vi, seed: c.R.Uint64()&^1 | uint64((g+k)&1)}
+				if c.R.Intn(2) == 1 {
+					lists[g][k].op = nc[c.R.Intn(len(nc))]
+				}
 			}
 		}
 	default:
